@@ -182,6 +182,27 @@ def big_case(seed, i, engine):
     return core.Case("backend", lines, {"engine": engine, "borders": [border], "adv": []})
 
 
+def many_regions_case(seed, i):
+    """A key space spread over more regions than any plausible batch size of the engine's region listing (1100..1300 real
+    mock-cluster regions under ONE listed range), a handful of keys in regions far apart: unary list, count, the whole-range
+    stream and the streams over the advertised partitions must all see every key. Implementation only (the executable model
+    is not run over a thousand partitions); judged by the python reference (`oracle`)."""
+    r = rng_for(seed, "c13many/%d" % i)
+    nreg = r.randint(1100, 1300)
+    pfx = PREFIX + b"/mr/"
+    borders = [enc(pfx + (b"%04d" % j), 0) for j in range(nreg)]
+    spots = sorted(set([3, r.randint(4, 1000), 1030 + r.randint(0, 40), nreg - r.randint(2, 20), nreg - 1]))
+    lines = [hist.cfg_line("tikv", regions=",".join(hx(b) for b in borders))]
+    for j in spots:
+        lines.append("create %s %s" % (hx(pfx + (b"%04dx" % j)), hx(b"v%d" % j)))
+    lines += ["settle", "rev"]
+    a, b = PREFIX + b"/", PREFIX + b"0"
+    lines += ["list %s %s 0 0" % (hx(a), hx(b)), "count %s %s" % (hx(a), hx(b)),
+              "stream %s %s 0" % (hx(enc(a, 0)), hx(enc(b, 0))), "streamadv %s %s 0" % (hx(a), hx(b)),
+              "list %s %s 0 2" % (hx(a), hx(b))]
+    return core.ImplOnlyCase("backend", lines, {"engine": "tikv", "borders": [], "adv": [], "many": nreg}, timeout=180)
+
+
 def check(rep, tier, seed):
     n = 40 if tier == "quick" else 900
     cases = []
@@ -194,6 +215,7 @@ def check(rep, tier, seed):
     cases += [big_case(seed, i, ["memkv", "tikv", "badger"][i % 3]) for i in range(4 if tier == "quick" else 12)]
     faults = [fault_case(seed, i, ["memkv", "tikv", "badger"][i % 3]) for i in range(3 if tier == "quick" else 18)]
     cases += faults
+    cases += [many_regions_case(seed, i) for i in range(1 if tier == "quick" else 4)]
     core.run_cases(cases)
     def pick(c):
         hit = fault_oracle(c) if c.meta.get("fault") else oracle(c)
